@@ -174,6 +174,11 @@ def forms_equal(run, sp, lhs, rhs, obligation, scenario, tol=TOL_FLOAT, scale=No
         raise ValueError("shape mismatch %s vs %s" % (np.shape(lhs), np.shape(rhs)))
     if scale is None:
         scale = max(af.scale_of(rhs, sp), af.scale_of(lhs, sp), 1e-300)
+    s1, box1 = af.top_row_query(sp, lhs, rhs, tol * scale)
+    if s1 is not None:
+        r = run.solve(s1, obligation, scenario)
+        if r == "sat":
+            return af.model_values(s1.model(), box1, sp)
     s, box, nterms = af.diff_query(sp, lhs, rhs, tol * scale)
     r = run.solve(s, obligation, scenario)
     if r == "sat":
@@ -303,9 +308,38 @@ def run_canaries(run, probe_path, canaries, scs):
 
 def quick_sat(sp, lhs, rhs, tol=TOL_FLOAT):
     """Unaccounted form comparison (canaries only)."""
-    s, box, nt = af.diff_query(sp, lhs, rhs, tol * max(af.scale_of(rhs, sp), af.scale_of(lhs, sp), 1e-300))
+    sc = tol * max(af.scale_of(rhs, sp), af.scale_of(lhs, sp), 1e-300)
+    s1, box1 = af.top_row_query(sp, lhs, rhs, sc)
+    if s1 is not None:
+        s1.set("timeout", 60000)
+        if str(s1.check()) == "sat":
+            return True
+    s, box, nt = af.diff_query(sp, lhs, rhs, sc)
     s.set("timeout", 60000)
     return str(s.check()) == "sat"
+
+
+class Found(Exception):
+    pass
+
+
+class _StopList(list):
+    def append(self, x):
+        list.append(self, x)
+        raise Found()
+
+
+def probe_body(pid, body, sym, sc):
+    """Canary probe: run a property's body until its first counterexample."""
+    from ..core import Run
+
+    run = Run(pid)
+    run.cex = _StopList()
+    try:
+        body(run, sym, sc)
+    except Found:
+        return True
+    return bool(run.cex)
 
 
 # ---------------------------------------------------------------------------
@@ -377,3 +411,88 @@ def base_scenarios(tier, seed, max_cells=None, halos=True):
             sc["growth"] = round(growth(z, prof, dx, dy), 2)
             out.append(sc)
     return out
+
+
+# ---------------------------------------------------------------------------
+# small helpers shared by the property modules
+
+REPLAY_TOL = {"double": 1e-7, "single": 5e-4}
+
+
+def dom_of(sc):
+    return (sc["nx"] * sc["dx"], sc["ny"] * sc["dy"])
+
+
+def lv3(a, sc, shape=None):
+    """View a solver output as (nlevels, ny, nx) whatever the squeeze did."""
+    nl = len(sc["levels"]) if not np.isscalar(sc["levels"]) else 1
+    a = np.asarray(a) if not isinstance(a, np.ndarray) else a
+    if shape is None:
+        shape = (sc["ny"], sc["nx"])
+    return np.reshape(a, (nl,) + tuple(shape))
+
+
+def sym_solve(sym, sc, q, **over):
+    kw = dict(modes=tuple(sc["modes"]), halo=sc["halo"], precision=sc["precision"])
+    kw.update(over)
+    dom = kw.pop("domain", dom_of(sc))
+    levels = kw.pop("levels", sc["levels"])
+    zp = kw.pop("zprof", None)
+    z, prof = zp if zp is not None else profiles(sc["pid"], sc["n"], seed=sc.get("seed", 0))
+    return sym.S(q, z, prof, dom, levels, **kw)
+
+
+def real_solve(sc, q, **over):
+    real = real_pkg()
+    kw = dict(modes=tuple(sc["modes"]), halo=sc["halo"], precision=sc["precision"])
+    kw.update(over)
+    dom = kw.pop("domain", dom_of(sc))
+    levels = kw.pop("levels", sc["levels"])
+    zp = kw.pop("zprof", None)
+    z, prof = zp if zp is not None else profiles(sc["pid"], sc["n"], seed=sc.get("seed", 0))
+    return real.solver.steady_state_transport_solver(np.asarray(q, float), z, prof, dom, levels, **kw)
+
+
+def rel_err(a, b):
+    a, b = np.asarray(a, float), np.asarray(b, float)
+    if a.shape != b.shape:
+        return float("inf")
+    return float(np.abs(a - b).max() / max(np.abs(a).max(), np.abs(b).max(), 1e-300))
+
+
+def guarded_worker(pid, body, sc):
+    """Common worker scaffold: body(run, sym, sc) fills run (and run.cex)."""
+    import traceback
+
+    from ..core import Run
+
+    run = Run(pid)
+    run.cex = []
+    try:
+        sym = Sym(run)
+        run.scenarios += 1
+        body(run, sym, sc)
+        twin_for(run, sym.sp, "%s scenario" % pid)
+    except af.NonAffine as e:
+        run.errors.append("solver left the affine domain: %s (scenario %s)" % (e, sc))
+    except Exception:
+        run.errors.append("exception in scenario %s: %s" % (sc, traceback.format_exc()[-1800:]))
+    return run.export()
+
+
+def handle_cex(run, pid, cex, replay, cap=6):
+    """Replay (at most cap) counterexamples on the real package and report."""
+    done = {}
+    for rec in cex:
+        ob = rec.get("obligation")
+        if done.get(ob, 0) >= 2 or sum(done.values()) >= cap:
+            continue
+        done[ob] = done.get(ob, 0) + 1
+        try:
+            res = replay(rec)
+        except Exception as e:  # the real code raising on a valid input is itself a finding for some properties
+            import traceback
+
+            res = {"confirmed": False, "exception": traceback.format_exc()[-800:]}
+        rec = dict(rec, property=pid, replay=res, cmd="./check %s --replay <this file>" % pid)
+        run.report(rec, bool(res.get("confirmed")))
